@@ -59,6 +59,7 @@ type vfWorld struct {
 	held []string
 
 	// monitors
+	trackLocks bool // keep the held-lock list without asserting (C08)
 	checkLocks bool // C09: assert lock discipline at every Database call
 	faults     bool // consult vfFault at fallible calls
 
@@ -88,6 +89,7 @@ type vfWorld struct {
 	idKind      int
 	missingReq  bool
 	distinctPool []string
+	membersOf   func(col string) []*url.URL // collection members as a function of the collection id
 	likesKind   int
 	likesPre    int
 	storedFollowN       int
@@ -188,7 +190,9 @@ func (d *vfDB) Lock(c context.Context, id *url.URL) error {
 	if w.checkLocks {
 		vfAssert(vfNot(w.isHeld(s)), "lock-retaken-while-held")
 	}
-	w.held = append(w.held, s)
+	if w.checkLocks || w.trackLocks {
+		w.held = append(w.held, s)
+	}
 	return nil
 }
 
@@ -200,6 +204,9 @@ func (d *vfDB) Unlock(c context.Context, id *url.URL) error {
 		vfAssert(w.isHeld(s), "unlock-of-lock-not-held")
 	}
 	for i := range w.held {
+		if !(w.checkLocks || w.trackLocks) {
+			break
+		}
 		if w.held[i] == s {
 			w.held = append(w.held[:i:i], w.held[i+1:]...)
 			break
